@@ -11,19 +11,19 @@ CONSTANTS CheckOutput, CheckBounds
 
 Rec == ndJsonDeserialize(IOEnv.TRACE)
 
-VARIABLES l, cfg, ins, since, live, allsmall, cfail
-vars == <<l, cfg, ins, since, live, allsmall, cfail>>
+VARIABLES l, cfg, ins, since, live, allsmall, cfail, faulted
+vars == <<l, cfg, ins, since, live, allsmall, cfail, faulted>>
 
 NoCfg == [teff |-> 0, realloc |-> FALSE, maxc |-> 1, stable |-> TRUE, mf |-> "concat"]
-TraceInit == l = 1 /\ cfg = NoCfg /\ ins = <<>> /\ since = 0 /\ live = 0 /\ allsmall = TRUE /\ cfail = FALSE
+TraceInit == l = 1 /\ cfg = NoCfg /\ ins = <<>> /\ since = 0 /\ live = 0 /\ allsmall = TRUE /\ cfail = FALSE /\ faulted = FALSE
 IsEvent(e) == l <= Len(Rec) /\ Rec[l].ev = e /\ l' = l + 1
 
-EvReset == IsEvent("Reset") /\ cfg' = NoCfg /\ ins' = <<>> /\ since' = 0 /\ live' = 0 /\ allsmall' = TRUE /\ cfail' = FALSE
-EvDict == IsEvent("Dict") /\ StrictlyAscending(Rec[l].strs) /\ UNCHANGED <<cfg, ins, since, live, allsmall, cfail>>
+EvReset == IsEvent("Reset") /\ cfg' = NoCfg /\ ins' = <<>> /\ since' = 0 /\ live' = 0 /\ allsmall' = TRUE /\ cfail' = FALSE /\ faulted' = FALSE
+EvDict == IsEvent("Dict") /\ StrictlyAscending(Rec[l].strs) /\ UNCHANGED <<cfg, ins, since, live, allsmall, cfail, faulted>>
 EvSCfg ==
     /\ IsEvent("SCfg")
     /\ cfg' = [teff |-> Rec[l].teff, realloc |-> Rec[l].realloc, maxc |-> Rec[l].maxc, stable |-> Rec[l].stable, mf |-> Rec[l].mf]
-    /\ ins' = <<>> /\ since' = 0 /\ live' = 0 /\ allsmall' = TRUE /\ cfail' = FALSE
+    /\ ins' = <<>> /\ since' = 0 /\ live' = 0 /\ allsmall' = TRUE /\ cfail' = FALSE /\ faulted' = FALSE
 
 \* Sorter::insert returned
 EvSIns ==
@@ -37,30 +37,33 @@ EvSIns ==
        \* C08: while only small entries are inserted, the volume inserted since the last
        \* spill (or since creation) stays within the bound
        /\ (CheckBounds /\ allsmall') => since' <= Bound(cfg.teff, cfg.realloc)
-    /\ UNCHANGED <<cfg, live>>
+    /\ UNCHANGED <<cfg, live, faulted>>
 
 \* the chunk creator failed (injected, transient): the insert in progress returns that error and
 \* stores nothing; the caller may retry.  Nothing was spilled, so the volume keeps counting.
-EvCreateFail == IsEvent("CreateFail") /\ cfail' = TRUE /\ UNCHANGED <<cfg, ins, since, live, allsmall>>
+\* (Once a creation has failed the live-chunk bound is no longer enforced: when it is the creation
+\* of the merge output that fails, the sorter keeps its unmerged chunks -- C08 does not quantify
+\* over faults.  The volume bound still is: a failed spill stores nothing.)
+EvCreateFail == IsEvent("CreateFail") /\ cfail' = TRUE /\ faulted' = TRUE /\ UNCHANGED <<cfg, ins, since, live, allsmall>>
 EvSInsFailed ==
     /\ IsEvent("SIns")
     /\ Rec[l].res # "ok" /\ cfail
     /\ cfail' = FALSE
-    /\ UNCHANGED <<cfg, ins, since, live, allsmall>>
+    /\ UNCHANGED <<cfg, ins, since, live, allsmall, faulted>>
 
 \* the sorter asked the user-supplied creator for a chunk: a spill (or a chunk merge)
 EvCreate ==
     /\ IsEvent("Create")
     /\ since' = 0
     /\ live' = live + 1
-    /\ CheckBounds => live' <= LiveBound(cfg.maxc)
-    /\ UNCHANGED <<cfg, ins, allsmall, cfail>>
+    /\ (CheckBounds /\ ~faulted) => live' <= LiveBound(cfg.maxc)
+    /\ UNCHANGED <<cfg, ins, allsmall, cfail, faulted>>
 
 EvDrop ==
     /\ IsEvent("Drop")
     /\ live >= 1
     /\ live' = live - 1
-    /\ UNCHANGED <<cfg, ins, since, allsmall, cfail>>
+    /\ UNCHANGED <<cfg, ins, since, allsmall, cfail, faulted>>
 
 \* the output of the sorter, obtained by streaming, through a writer, or by merging the
 \* returned chunk cursors
@@ -69,7 +72,7 @@ EvSOut ==
     /\ LET e == Rec[l] IN
        /\ e.res = "ok"
        /\ CheckOutput => OutputOk(ins, e.entries, cfg.stable, cfg.mf)
-    /\ UNCHANGED <<cfg, ins, since, live, allsmall, cfail>>
+    /\ UNCHANGED <<cfg, ins, since, live, allsmall, cfail, faulted>>
 
 TraceNext == EvReset \/ EvDict \/ EvSCfg \/ EvSIns \/ EvSInsFailed \/ EvCreateFail \/ EvCreate \/ EvDrop \/ EvSOut
 TraceSpec == TraceInit /\ [][TraceNext]_vars
